@@ -18,7 +18,8 @@ RULE = ('cases = (table sizes incl. 0,1,2,254..257,300 and random; protocol vers
 ASSUMPTIONS = ['simulated device implements the firmware TOC protocol (V1 and V2) as documented',
                'platform / link-control requests are never lost (the library sends them without retry)']
 REQUIRED = ['mon.tables_at_connected', 'mon.lookup_entries', 'mon.stale_sessions', 'mon.lossy_retransmissions',
-            'mon.v1_cases', 'mon.over_255', 'mon.cache_reconnects', 'mon.early_param_packets']
+            'mon.v1_cases', 'mon.over_255', 'mon.cache_reconnects', 'mon.early_param_packets',
+            'mon.stale_item_replies_mid_download']
 DESC_TIMEOUT = 900
 
 SIZES = [0, 1, 2, 3, 254, 255, 256, 257, 300]
@@ -143,7 +144,11 @@ def run(desc, ctx):
             done.clear()
             obs['connected'].clear()
             session['n'] = 2
-            spec.carry = [(rnd.uniform(0.0, 0.003), h, d) for (h, d) in left]
+            # ... at the very start of session 2, or anywhere during its downloads (a radio may hold a packet that long)
+            span = rnd.choice((0.003, 0.003, 0.02, 0.002 * total))
+            spec.carry = [(rnd.uniform(0.0, span), h, d) for (h, d) in left]
+            if span > 0.003 and left:
+                obs['stale_mid_download'] = True
         if pol == 'cachenotify':
             # first connection fills the cache; the second one (same object or a fresh one sharing the cache) is
             # served from it while the device also sends parameter packets of its own
@@ -166,6 +171,21 @@ def run(desc, ctx):
         if pol == 'stale' and cf.link is not None:
             for (dl, h, d) in spec.carry:
                 cf.link.inject(h, d, dl)
+            # further answers to item requests of the aborted session (any index: the old session may have been
+            # further along than the new one is when they arrive)
+            import struct as _st
+            total = 12 + desc['nlog'] + desc['nparam']
+            for _ in range(rnd.randint(0, 4)):
+                port, count, item = rnd.choice(((5, len(dev.log_toc), dev.log_item), (2, len(dev.params), dev.param_item)))
+                if not count:
+                    continue
+                idx = rnd.randrange(count)
+                if dev.proto >= 4:
+                    d = bytes([2]) + _st.pack('<H', idx) + item(idx)
+                else:
+                    d = bytes([0, idx]) + item(idx)
+                cf.link.inject(simcf.hdr(port, 0), d, rnd.uniform(0.0, 0.0022 * total))
+                obs['stale_items'] = obs.get('stale_items', 0) + 1
         done.wait(120.0 + (desc['nlog'] + desc['nparam']) * 2.0)
         s.sleep(0.05)
         cf.close_link()
@@ -201,6 +221,9 @@ def run(desc, ctx):
     if pol == 'stale':
         ctx.count('mon.stale_sessions')
         ctx.count('mon.stale_packets_delivered', obs.get('stale_left', 0))
+        if obs.get('stale_mid_download'):
+            ctx.count('mon.stale_packets_delivered_mid_download')
+        ctx.count('mon.stale_item_replies_mid_download', obs.get('stale_items', 0))
     if pol == 'cachenotify':
         ctx.count('mon.cache_reconnects')
     if pol in ('cachenotify', 'notify'):
